@@ -17,7 +17,7 @@ Proof.
   intros Hne Hm. unfold here.
   destruct (N.eqb_spec (e_author e) (me c)) as [E|_]; [contradiction|].
   destruct (e_kind e =? 1).
-  - unfold app_here. destruct (negb _ || existsb (N.eqb (e_msg e)) (k_seen (kc c))); [reflexivity|].
+  - unfold app_here. destruct (negb _ || existsb (N.eqb (e_msg e)) (k_seen (kc c)) || (e_bad e =? 7)); [reflexivity|].
     cbn [fst set_core put_dedup set_dedup set_msgs msgs]. apply dget_aset_other. exact Hm.
   - destruct (e_kind e =? 2).
     + unfold leave_here. destruct (existsb (N.eqb (100000 + e_id e)) (k_seen (kc c))); [reflexivity|].
@@ -122,7 +122,7 @@ Proof.
   intros Hne. unfold here.
   destruct (N.eqb_spec (e_author e) (me c)) as [E|_]; [contradiction|].
   destruct (e_kind e =? 1).
-  - unfold app_here. destruct (negb _ || existsb (N.eqb (e_msg e)) (k_seen (kc c))); [discriminate|]. intros _.
+  - unfold app_here. destruct (negb _ || existsb (N.eqb (e_msg e)) (k_seen (kc c)) || (e_bad e =? 7)); [discriminate|]. intros _.
     cbn [fst set_core put_dedup set_dedup set_msgs msgs].
     eexists. split; [apply dget_aset_same|split; reflexivity].
   - destruct (e_kind e =? 2).
